@@ -370,12 +370,14 @@ def deserVersioned {α} (rest : Json → α) (ms : Option (List Mapping)) (d : J
       | some (m :: r) => bindE (convertDict d (m :: r)) fun d' => .ok (rest d')
   | _ => .error .typeErr
 
-/-- `Deserializer.deserialize`: `keep_undefined=None` stays falsy when the class allows additional properties
-    and becomes `True` otherwise; an explicit value is passed on -/
-def adjustedKeep (keep : Option Bool) (addl : Bool) : Bool :=
+/-- `Deserializer.deserialize`: an explicit `keep_undefined` is passed on; `None` stays falsy when the class allows
+    additional properties and otherwise becomes `not ignore_invalid_additional_properties_in_deserialization`, i.e.
+    `False` with the global flag at its default (typedpy commit 005d815; before it became `True`, which nested
+    classes then inherited) -/
+def adjustedKeep (keep : Option Bool) (_addl : Bool) : Bool :=
   match keep with
   | some b => b
-  | none => !addl
+  | none => false
 
 /-- the undeclared keys `deserialize_structure_internal` hands to the constructor (`kwargs = {k: v for k, v in
     input_dict.items() if k not in field_by_name and keep_undefined and (additional_props is True or not
